@@ -23,6 +23,7 @@ class Param:
         why: str = "", n: int = 0, elems: Optional[list] = None):
         self.name, self.kind, self.dim, self.decl, self.pos = name, kind, dim, decl, pos
         self.why, self.n, self.elems = why, n, elems or []
+        self.shape: Any = None
         self.m0 = M0[pos % len(M0)] * (1 + pos // len(M0))
 
 
@@ -30,8 +31,31 @@ def _ann(a: Any) -> str:
     return str(a)
 
 
-def plan(fn: Any) -> tuple[list[Param], str]:
-    """returns (params, reason); reason != '' if the function cannot be driven"""
+def _shape(ann: Any) -> Any:
+    """'Q' quantity slot, 'F' number slot, tuple of shapes for fixed tuples; None if unsupported"""
+    s = str(ann)
+    if s == "<class 'symplyphysics.core.symbols.quantities.Quantity'>":
+        return "Q"
+    if s in ("<class 'float'>", "<class 'int'>"):
+        return "F"
+    if s in ("symplyphysics.core.symbols.quantities.Quantity | float",
+            "float | symplyphysics.core.symbols.quantities.Quantity"):
+        return "Q"
+    if s.startswith("tuple["):
+        parts = [_shape(a) for a in typing.get_args(ann)]
+        if parts and all(x is not None for x in parts):
+            return tuple(parts)
+    return None
+
+
+def _has_q(shape: Any) -> bool:
+    return shape == "Q" or (isinstance(shape, tuple) and any(_has_q(x) for x in shape))
+
+
+def plan(fn: Any, mod: Any = None) -> tuple[list[Param], str]:
+    """returns (params, reason); reason != '' if the function cannot be driven.  With ``mod`` given,
+    unguarded quantity-typed parameters become 'free' parameters whose dimension is found by trial
+    among the dimensions of the module's own symbols (resolve_free)."""
     from sympy.physics.units import Dimension
     sp_ = catalogue.spec(fn)
     params: list[Param] = []
@@ -48,6 +72,11 @@ def plan(fn: Any) -> tuple[list[Param], str]:
                 params.append(Param(p.name, "int", dims.ONE, None, pos))
             elif p.default is not p.empty:
                 params.append(Param(p.name, "default", None, None, pos))
+            elif mod is not None and _shape(p.annotation) is not None and _has_q(_shape(
+                    p.annotation)):
+                prm = Param(p.name, "free", None, None, pos)
+                prm.shape = _shape(p.annotation)
+                params.append(prm)
             else:
                 return params, f"unguarded parameter {p.name}: {ann}"
             continue
@@ -83,6 +112,38 @@ def plan(fn: Any) -> tuple[list[Param], str]:
         else:
             params.append(Param(p.name, "quantity", dv, decl, pos, why="any" if anyd else ""))
     return params, ""
+
+
+def resolve_free(fn: Any, params: list[Param], mod: Any) -> bool:
+    """find, by trial, one dimension for the unguarded quantity slots that the function accepts
+    (candidates: the dimensions of the module's own symbols, simplest name first)"""
+    free = [p for p in params if p.kind == "free"]
+    if not free:
+        return True
+    from symplyphysics.core.symbols.symbols import DimensionSymbol
+    cands: list[dims.DimVec] = []
+    for n in sorted(vars(mod)):
+        v = vars(mod)[n]
+        if isinstance(v, DimensionSymbol):
+            try:
+                d = dims.of_dimension(v.dimension)
+            except Exception:
+                continue
+            if isinstance(d, dims.DimVec) and not d.symbolic and d not in cands:
+                cands.append(d)
+    cands = sorted(cands, key=lambda d: (len(d.e), repr(d))) + ([dims.ONE] if dims.ONE not in cands
+        else [])
+    for d in cands[:8]:
+        for p in free:
+            p.kind, p.dim = "nested", d
+        try:
+            fn(**call_args(params))
+            return True
+        except Exception:
+            continue
+    for p in free:
+        p.kind, p.dim = "free", None
+    return False
 
 
 # unit spellings ---------------------------------------------------------------------------------
@@ -146,6 +207,17 @@ def realise_param(p: Param, scale: float = 1.0, spelling: str = "si") -> Any:
     if p.kind == "tupledecl":
         return [quantity(d if not isinstance(d, dims.AnyDim) else dims.ONE, m * (1 + 0.3 * i),
             spelling) for i, d in enumerate(p.elems)]
+    if p.kind == "nested":
+        counter = [0]
+
+        def mk(shape: Any) -> Any:
+            if isinstance(shape, tuple):
+                return tuple(mk(x) for x in shape)
+            counter[0] += 1
+            mm = m * (1 + 0.3 * (counter[0] - 1))
+            return quantity(p.dim, mm, spelling) if shape == "Q" else float(mm)
+
+        return mk(p.shape)
     if p.kind == "qvector":
         # components not proportional to those of the vector at another position
         return QuantityVector([quantity(p.dim, m * (1 + 0.3 * i + 0.17 * p.pos * i * i), spelling)
@@ -157,4 +229,4 @@ def call_args(params: list[Param], scales: Optional[dict] = None,
     spellings: Optional[dict] = None) -> dict:
     scales, spellings = scales or {}, spellings or {}
     return {p.name: realise_param(p, scales.get(p.name, 1.0), spellings.get(p.name, "si"))
-        for p in params if p.kind != "default"}
+        for p in params if p.kind not in ("default", "free")}
